@@ -69,11 +69,15 @@ def gz(n):
 
 
 def gzlist(l):
+    if not l:
+        return "(@nil Z)"
     return "[" + "; ".join(gz(x) for x in l) + "]%Z"
 
 
 def gzmat(m):
-    return "[" + "; ".join("[" + "; ".join(gz(x) for x in r) + "]" for r in m) + "]%Z"
+    if not m:
+        return "(@nil (list Z))"
+    return "[" + "; ".join(gzlist(r) for r in m) + "]"
 
 
 def gnat(n):
@@ -84,11 +88,15 @@ def gnat(n):
 
 
 def gnlist(l):
+    if not l:
+        return "(@nil nat)"
     return "[" + "; ".join(str(int(x)) for x in l) + "]%nat"
 
 
 def gnmat(m):
-    return "[" + "; ".join("[" + "; ".join(str(int(x)) for x in r) + "]" for r in m) + "]%nat"
+    if not m:
+        return "(@nil (list nat))"
+    return "[" + "; ".join(gnlist(r) for r in m) + "]"
 
 
 def gbool(b):
@@ -96,6 +104,8 @@ def gbool(b):
 
 
 def gblist(l):
+    if not l:
+        return "(@nil bool)"
     return "[" + "; ".join(gbool(x) for x in l) + "]"
 
 
@@ -111,6 +121,8 @@ def gq(fr):
 
 
 def gqlist(l):
+    if not l:
+        return "(@nil Qc)"
     return "[" + "; ".join(gq(x) for x in l) + "]"
 
 
@@ -145,11 +157,44 @@ def restore_baseline(unit):
     return False
 
 
+def assemble_project():
+    """_CoqProject = '-Q theories PV' + the concatenation of coq/project.d/*.list (sorted); rewritten only on change"""
+    d = os.path.join(COQ, "project.d")
+    lines = ["-Q theories PV"]
+    for fn in sorted(os.listdir(d)):
+        if fn.endswith(".list"):
+            for l in open(os.path.join(d, fn)):
+                l = l.strip()
+                if l and not l.startswith("#") and l not in lines:
+                    lines.append(l)
+    text = "\n".join(lines) + "\n"
+    cp = os.path.join(COQ, "_CoqProject")
+    if not os.path.exists(cp) or open(cp).read() != text:
+        with open(cp, "w") as fh:
+            fh.write(text)
+
+
 def ensure_makefile():
+    assemble_project()
     mk = os.path.join(COQ, "Makefile")
     cp = os.path.join(COQ, "_CoqProject")
     if not os.path.exists(mk) or os.path.getmtime(mk) < os.path.getmtime(cp):
         sh("coq_makefile -f _CoqProject -o Makefile", cwd=COQ, timeout=60)
+
+
+class BuildLock:
+    """serialises translator + make + Print-Assumptions recompilation across concurrently running checks"""
+
+    def __enter__(self):
+        import fcntl
+        self.fh = open(os.path.join(COQ, ".build.lock"), "w")
+        fcntl.flock(self.fh, fcntl.LOCK_EX)
+        return self
+
+    def __exit__(self, *a):
+        import fcntl
+        fcntl.flock(self.fh, fcntl.LOCK_UN)
+        self.fh.close()
 
 
 def make(targets, timeout=1500):
@@ -261,17 +306,19 @@ def run_coq_cases(prop, imports, exprs, shard=400, timeout=900):
         body = m.group(1).strip()
         if body:
             failing += [int(x.replace("%nat", "").strip()) for x in body.split(";")]
-    shutil.rmtree(rundir, ignore_errors=True)
+    if not errs and not os.environ.get("VERIF_KEEP"):
+        shutil.rmtree(rundir, ignore_errors=True)
     return sorted(failing), ("\n".join(errs) if errs else None)
 
 
 def load_known():
+    """known_findings.jsonl (assembled from findings.d/*.jsonl by tools/mkmanifest.py; never written at run time)"""
     out = []
     p = os.path.join(ROOT, "known_findings.jsonl")
     if os.path.exists(p):
         for line in open(p):
             line = line.strip()
-            if line and not line.startswith("#"):
+            if line and not line.startswith("#") and not line.startswith("fixed:"):
                 out.append(json.loads(line))
     return out
 
@@ -303,9 +350,11 @@ def run_property(mod, tier, seed):
     notes = []
     known = [k for k in load_known() if k.get("property") == prop and k.get("status", "open") == "open"]
 
+    lock = BuildLock()
+    lock.__enter__()
     # 1. translator -----------------------------------------------------------------
     gen_units = getattr(mod, "GEN_UNITS", [])
-    gen_status = regen() if gen_units else {}
+    gen_status = regen()     # always: Gen/ must reflect THIS run's source tree
     tieA = {}
     tieA_broken = []
     for u in gen_units:
@@ -333,6 +382,7 @@ def run_property(mod, tier, seed):
         if not ok:
             log = log2
     if not ok:
+        lock.__exit__()
         path = write_replay(prop, {"property": prop, "kind": "build-failure", "log": log[-4000:]})
         print(f"VIOLATION property={prop} replay={path} no-failing-input-found")
         write_evidence(mod, tier, seed, t0, {"explanation": "Coq development does not build", "obligations": 0, "discharged": 0}, 1, [])
@@ -342,6 +392,7 @@ def run_property(mod, tier, seed):
     bad = hygiene(None)
     obligations, discharged, axioms, problems, theorems = assumptions(mod.THEOREM_FILES)
     problems = bad + problems
+    lock.__exit__()
     if problems:
         path = write_replay(prop, {"property": prop, "kind": "hygiene", "problems": problems})
         violations.append((path, "no-failing-input-found"))
